@@ -3,7 +3,7 @@ import json, os
 import vcheck as V
 from props import common
 
-THEOREMS = ["C20_holds", "C20_durable", "C20_replay"]
+THEOREMS = ["C20_holds", "C20_resign", "C20_durable", "C20_replay"]
 
 
 def run(ctx):
@@ -40,8 +40,9 @@ def run(ctx):
             case = caseobjs[idx]
             if pred is False:
                 found_input = True
-                V.violation(ctx, "double-sign", {"kind": "implementation-trace-falsifies-P_C20",
-                            "theorem": "C20_holds", "case": case})
+                V.violation(ctx, "trace-falsifies-P_C20", {"kind": "implementation-trace-falsifies-P_C20",
+                            "clauses": "no two different messages signed at one height/round/step; height/round/step of released signatures never decreases; a repeated request (any timestamp) is answered with the original signature",
+                            "theorem": "C20_holds / C20_resign", "case": case})
             elif dproj is not None:
                 V.violation(ctx, "correspondence:signer", {"kind": "model-implementation-divergence",
                             "first_difference_at_op": dproj[1] if isinstance(dproj, tuple) else dproj,
